@@ -267,6 +267,11 @@ func propC14(w *World, r *Report) {
 	checkHandleConnMarkerCI(w, r, ci, "M2")
 	// "... a camera reset that ends the current recording and restarts detection": the reset reaches the detector and
 	// its rings on every path, and the rings' Reset really rewinds them
+	// ... and ends the recording the way every stop does: the pre-trigger ring is marked, so frames delivered before the
+	// reset are not delivered a second time into the next recording
+	linkObligations(w, r, propC01, "C01", func(o *Obligation) bool {
+		return o.Rule == "C01.O2" && (strings.Contains(o.Construct, "SetAsOldest at") || strings.Contains(o.Construct, "stop-without-mark"))
+	}, "M2")
 	if mruns, err := getMotionRuns(w); err == nil {
 		checkProcessorResetResetsDetector(w, r, mruns, "M2")
 		if dd := getDetector(w); dd.Err == nil {
@@ -631,6 +636,29 @@ func propC14(w *World, r *Report) {
 					good, detail = false, "the assertion failed but its (zero) result is used as if it had succeeded"
 				}
 			}
+			returnsVal := false
+			for _, p := range paths {
+				rv := p.Ret.Results[0]
+				for {
+					if cv, isCv := rv.(*ssa.Convert); isCv {
+						rv = cv.X
+						continue
+					}
+					break
+				}
+				dead := false
+				for _, g := range p.Conds {
+					if k, isK := g.If.Cond.(*ssa.Const); isK && k.Value != nil && (k.Value.ExactString() == "true") != g.Pos {
+						dead = true // a path through the impossible edge of a constant condition
+					}
+				}
+				if rv == val && !dead {
+					returnsVal = true
+				}
+			}
+			if good && !returnsVal {
+				good, detail = false, "no feasible path returns the asserted value"
+			}
 			r.Check(good, "M5", "accessor "+fn.Name()+" returns the asserted value exactly when the type assertion succeeded", w.Pos(fn.Pos()), detail)
 		}
 		r.Check(nAcc >= 1 || len(fns) > 0, "G4", "accessors with checked assertions scanned", "-", fmt.Sprint(nAcc))
@@ -842,7 +870,7 @@ func checkReadHeaderInfo(w *World, r *Report, rh *ssa.Function) {
 			}
 		}
 	}
-	r.Check(nBuf >= 1, "M4", "header lines are collected in a buffer", w.Pos(rh.Pos()), fmt.Sprint(nBuf))
+	r.Check(nBuf == 1, "M4", "header lines are collected in a buffer, each once (one buffering call in the loop)", w.Pos(rh.Pos()), fmt.Sprint(nBuf))
 	// yaml error returned
 	okY := false
 	for _, f := range w.funcFamily(rhOuter) {
@@ -941,6 +969,19 @@ func checkHandleConnMarkerCI(w *World, r *Report, ci *connInfo, rule string) {
 			r.Check(!by, rule, "no path from a completed frame read comes round to the next read without passing Process", pos, "")
 		} else {
 			r.Unknown(rule, "no path from a completed frame read comes round to the next read without passing Process", w.InstrPos(ci.rest), "the remainder read is not followed by an error check")
+		}
+		// ... and once: the frame loop hands a frame to the processor at one site only (a second call would deliver the
+		// frame twice - recorded twice, buffered twice, counted twice)
+		if pc := ci.process.Call.StaticCallee(); pc != nil {
+			nP := 0
+			for _, b := range ci.process.Parent().Blocks {
+				for _, in := range b.Instrs {
+					if c, ok := in.(*ssa.Call); ok && c.Call.StaticCallee() == pc {
+						nP++
+					}
+				}
+			}
+			r.Check(nP == 1, rule, "each frame read is handed to Process exactly once (one call site in the frame loop)", w.InstrPos(ci.process), fmt.Sprint(nP))
 		}
 	}
 	// from the reset block control returns to the probe read without passing the second read / Process
